@@ -39,7 +39,7 @@ FLOORS = {'quick': {'paths': 200, 'checks': 2000}, 'thorough': {'paths': 2000, '
 STOP_VALUE = 'STOP'
 
 
-def scen_oa(env, mode, with_guard, nput, stop_data):
+def scen_oa(env, mode, with_guard, nput, stop_data, late=False):
     circ = fresh_circuit()
     loopref = []
     now = lambda: loopref[0].time()
@@ -87,6 +87,11 @@ def scen_oa(env, mode, with_guard, nput, stop_data):
         await circ.wait_init()
         ev = edzed.ExtEvent(oa, 'put', source='_ext_src')
         for i in range(nput):
+            if late:
+                # let the block schedule its own timers first: at an exact tie (arrival = completion of a
+                # run / end of the guard time) the block's timer then runs BEFORE the arrival
+                for _ in range(5):
+                    await asyncio.sleep(0)
             await asyncio.sleep(gaps[i])
             arrivals[i] = loop.time()
             trace.append(('arrive', loop.time(), i, None))
@@ -251,7 +256,11 @@ def shards(tier):
             for sd in (False, True):
                 if mode == 'start' and wg and tier == 'quick':
                     continue
-                out.append({'name': f'{mode} guard={wg} puts={n} stop_data={sd}', 'scenario': 'scen_oa',
-                            'params': {'mode': mode, 'with_guard': wg, 'nput': n, 'stop_data': sd},
-                            'cost': (3 if wg else 1) * (2 if sd else 1)})
+                for late in (False, True):
+                    if late and (mode == 'start' or (tier == 'quick' and sd)):
+                        continue
+                    out.append({'name': f'{mode} guard={wg} puts={n} stop_data={sd}' + (' late-ties' if late else ''),
+                                'scenario': 'scen_oa',
+                                'params': {'mode': mode, 'with_guard': wg, 'nput': n, 'stop_data': sd, 'late': late},
+                                'cost': (3 if wg else 1) * (2 if sd else 1)})
     return out
